@@ -1,4 +1,5 @@
 import ConjureVerif.Model.SafeLong
+import ConjureVerif.Model.Uri
 /-
 Line-protocol driver.  One operation per input line: `<property> <op> <args…>`; one output line per
 operation.  Imports models only (no Mathlib, no proofs), so it links as a native executable.
@@ -8,6 +9,7 @@ open ConjureVerif
 def dispatch (line : String) : String :=
   match line.trimAscii.toString.splitOn " " with
   | "C15" :: rest => SafeLong.handle rest
+  | "C07" :: rest => Uri.handle rest
   | _ => "bad-op"
 
 partial def loop (i o : IO.FS.Stream) : IO Unit := do
